@@ -181,3 +181,16 @@ CLAIMS["C23"] = (
     "against their contract: factors monic, irreducible (exhaustive search for monic divisors of degree <= deg/2), "
     "distinct, product times leading coefficient equals the input",
     "6/C23", TRUSTED, "TLA+ arithmetic mod p by definition + factorisation contracts + TLC trace validation")
+
+CLAIMS["C24"] = (
+    "model_checking",
+    "TLC enumerates all 2x2 matrices over {-2..2} and over {-1,0,1,1/2}, seeded 3x3 matrices over {-1,0,1,2}, a "
+    "symmetric 3x3 family, hand-picked zero-pivot / rank-deficient / Gaussian ones and rectangular 2x3, 3x2, 3x4, "
+    "4x3 matrices; every determinant and inverse algorithm, every solver, LU, LDL, fraction-free LDU, QR, Cholesky, "
+    "RREF (both normalisation orders), rank (pivot columns), characteristic polynomial, transpose, product, sum and "
+    "row/column operations are replayed and TLC validates them against module Mat: Laplace determinant, the unique "
+    "exact RREF, and multiply-back contracts (A*inv = I, A*x = b, L*U = A, L*D*L^T = A, L*D^-1*U = A, Q*R = A with "
+    "Q^T*Q = I, L*L^T = A, triangular/unit/diagonal shapes)",
+    "6/C24", TRUSTED + "; DenseMatrix::rank() itself throws NotImplementedError in this tree, the rank observable is "
+    "the pivot list of reduced_row_echelon_form; homogeneous_lde (diophantine.cpp) is not covered",
+    "TLA+ exact linear algebra oracle + contracts + TLC trace validation")
